@@ -9,6 +9,7 @@
 #include <cstdio>
 #include <cstring>
 #include <map>
+#include <set>
 #include <memory>
 #include <mutex>
 #include <sys/uio.h>
@@ -43,6 +44,7 @@ struct OpCtx {
 std::mutex g_mu;
 std::map<std::string, std::shared_ptr<SimFile>> g_files;
 std::map<int, OpenFile> g_open;
+std::set<std::string> g_dirs;
 DiskTotals g_tot;
 std::string g_real_root;
 thread_local OpCtx t_op;
@@ -102,6 +104,11 @@ void disk_remove(const std::string &path) {
     HarnessScope hs;
     std::lock_guard<std::mutex> lk(g_mu);
     g_files.erase(path);
+}
+void disk_set_dir(const std::string &path, bool isDir) {
+    HarnessScope hs;
+    std::lock_guard<std::mutex> lk(g_mu);
+    if (isDir) g_dirs.insert(path); else g_dirs.erase(path);
 }
 void disk_mkdirs(const std::string &dir) {
     if (is_sim_path(dir.c_str()) || dir.compare(0, 4, "/sim") == 0) return;
@@ -327,6 +334,11 @@ FILE *__wrap_fopen64(const char *path, const char *mode) {
             errno = op.spec.open_errno;
             return nullptr;
         }
+        if (g_dirs.count(path)) {
+            if (op.active) { op.st.f_open_fail++; op.st.hard_fired = true; }
+            errno = EISDIR;
+            return nullptr;
+        }
         auto it = g_files.find(path);
         if (r && !w && !a) {
             if (it == g_files.end()) { errno = ENOENT; return nullptr; }
@@ -380,6 +392,36 @@ ssize_t __wrap_write(int fd, const void *buf, size_t n) {
 ssize_t __wrap_writev(int fd, const struct iovec *iov, int cnt) {
     if (!sim::fd_is_sim(fd)) return __real_writev(fd, iov, cnt);
     return sim::sim_write(fd, iov, cnt);
+}
+int __real_rename(const char *, const char *);
+// "write to a side file, then rename": the rename has to work (and to be able to fail) on the simulated disk too
+int __wrap_rename(const char *from, const char *to) {
+    using namespace sim;
+    if (!is_sim_path(from) || !is_sim_path(to)) return __real_rename(from, to);
+    HarnessScope hs;
+    std::lock_guard<std::mutex> lk(g_mu);
+    OpCtx &op = t_op;
+    auto it = g_files.find(from);
+    if (it == g_files.end()) { errno = ENOENT; return -1; }
+    if (g_dirs.count(to)) {
+        if (op.active) { op.st.f_open_fail++; op.st.hard_fired = true; }
+        errno = EISDIR;
+        return -1;
+    }
+    g_files[to] = it->second;
+    g_files.erase(it);
+    return 0;
+}
+int __wrap_remove(const char *path);
+int __real_remove(const char *);
+int __wrap_remove(const char *path) {
+    using namespace sim;
+    if (!is_sim_path(path)) return __real_remove(path);
+    HarnessScope hs;
+    std::lock_guard<std::mutex> lk(g_mu);
+    if (g_files.erase(path)) return 0;
+    errno = ENOENT;
+    return -1;
 }
 int __real_ioctl(int, unsigned long, ...);
 // libstdc++'s showmanyc() (in_avail / readsome) asks FIONREAD: answer it for simulated files
